@@ -299,4 +299,8 @@ def gen_tag_module(rng, name, td):
     add(name + "C3", members(r.choice([2, 4]), pool2, "CHOICE"))
     add(name + "L0", {"k": "SEQUENCE OF", "elem": {"k": "REF", "name": r.choice([c0, c1, k1, e0])}, "size": r.choice([None, genmod.cons(1, 4)])})
     add(name + "L1", tagged({"k": "SET OF", "elem": {"k": "REF", "name": r.choice(refs)}, "size": None}))
+    # SEQUENCE { ... }: no components but extensible, first_extension = 0 (F120 repaired), top level and as a member
+    s3 = add(name + "S3", {"k": "SEQUENCE", "comps": [], "ext": 0})
+    add(name + "S4", {"k": "SEQUENCE", "comps": [{"id": f"m{name.lower()}s4x0", "type": {"k": "REF", "name": s3, "tag": ("ctx", 0, "")}, "opt": "OPTIONAL"},
+                                                 {"id": f"m{name.lower()}s4x1", "type": {"k": "SEQUENCE", "comps": [], "ext": 0, "tag": ("ctx", 1, "")}}]})
     return {"name": name, "tagdefault": td, "types": types}
